@@ -117,6 +117,8 @@ def oracle_c14(sc, res):
         if stop_returned is not None and r[SEQ] > stop_returned and k in ("act", "trans", "recv") and r[4] == root:
             if inflight_worker is not None and r[W] == inflight_worker and k != "recv":
                 continue  # the remainder of the macrostep whose own action called stop()
+            if k == "trans" and r[7] == "___xstate_statemachine_init___":
+                continue  # the tail of a concurrent start(): its plugin notification of the initial entry, not a delivery
             vios.append(Violation("C14", "activity-after-stop", {"engine": eng, "kind": k, "preempted": preempted,
                                                                 "same_worker_as_stop": False},
                                   f"after stop() returned (seq {stop_returned}) the interpreter produced {k} {r[4:7]} at seq {r[SEQ]} by {r[W]}"))
